@@ -50,7 +50,14 @@ ws = st.text(alphabet=' \t\n\r', max_size=2)
 
 @st.composite
 def lookalike(draw):
-    kind = draw(st.integers(0, 7))
+    kind = draw(st.integers(0, 8))
+    if kind == 8:
+        # almost JSON: a raw control character inside a quoted part (RFC 8259 forbids it, so the
+        # text is not a JSON literal and stays text)
+        c = draw(st.sampled_from(['\t', '\n', '\r', '\x00', '\x1f', '\x0b', '\x7f']))
+        a, b = draw(st.text(alphabet='ab ', max_size=3)), draw(st.text(alphabet='ab ', max_size=3))
+        return draw(st.sampled_from(['"%s%s%s"', '{"k":"%s%s%s"}', '["%s%s%s"]', '{"%s%s%s":1}',
+                                     '[1,"%s%s%s",2]'])) % (a, c, b)
     if kind == 0:
         v = draw(json_value)
         compact = draw(st.booleans())
@@ -233,6 +240,7 @@ def check_decode_binary_inputs(raw, ctx=None):
 
 CATALOGUE = [
     None, '', 'a', 'hello', '0', '1', '-1', '12', '007', '1.5', '1e3', 'NaN', 'Infinity', 'true',
+    '"a\tb"', '{"k":"v\x1fw"}', '["x\ry"]',
     'null', '"x"', '{"a":1}', '[1,2]', ' [1] ', '{', 'b', 'bQQ==', 'b64', '4', '\x1e', '"', '\\',
     'é', ' ', '\U0001f600', '9' * 100, '9' * 101, '٣', ' 5', '{}', '[]',
     b'', b'\x00', b'a', b'4abc', b'\x04\x01\x02', b'\xff\xfe\xfd\xfc', bytearray(b'xyz'),
